@@ -259,6 +259,7 @@ def _run_history(sc, want_idempotence=True, faults=None, audits=True):
         seam = Seam(w.root, order_key=sc['order_key'], virtual_root=True, clock=clock, faults=faults, patch_time=True,
                     read_chunks=sc.get('chunks'))
         opi = 0
+        update_ops = []
         session = {}
         for ri, rnd in enumerate(sc.get('rounds', [])):
             mf_before_edits = None
@@ -340,7 +341,9 @@ def _run_history(sc, want_idempotence=True, faults=None, audits=True):
                     mf_before_edits != dict((k_, v_) for k_, v_ in w.snapshot(with_mtime=False).items() if is_manifest_path(k_)):
                 u = dict(u, reuse=False)      # somebody else rewrote or removed a Manifest: a cached loader is legitimately stale
                 counters['reuse_cancelled_manifest_changed_by_edit'] = counters.get('reuse_cancelled_manifest_changed_by_edit', 0) + 1
+            n0_ = seam.n
             r, info = do_update(w, seam, u, opi, top, session)
+            update_ops.append((n0_, seam.n))      # seam calls n0 < n <= n1 were made by this update
             if u.get('api', 'lib') != 'lib':
                 session['m'] = None
             if info.get('pre_verify'):
@@ -585,5 +588,5 @@ def _run_history(sc, want_idempotence=True, faults=None, audits=True):
             clock.advance(3_000_000_000)
         final_snapshot = w.snapshot(content=True, with_mtime=False)
         written = sorted(set(e[2] for e in seam.write_events if e[1] == 'open.w'))
-    return {'written': written, 'os_genuine': os_genuine, 'violations': violations, 'seams': [seam], 'counters': counters, 'zones': zones,
+    return {'update_ops': update_ops, 'written': written, 'os_genuine': os_genuine, 'violations': violations, 'seams': [seam], 'counters': counters, 'zones': zones,
             'outcome': outcome, 'results': results, 'final': final_snapshot}
